@@ -143,7 +143,11 @@ pub fn minimise(property: &str, start: Failing) -> (Failing, u64) {
 
     let mut progress = true;
     let mut rounds = 0;
-    while progress && rounds < 4 && m.tests < 600 {
+    // Wall time bounds only how small the reported scenario gets, never whether a violation is
+    // reported: the replay file is whatever failing scenario has been reached by then.
+    let started = std::time::Instant::now();
+    let in_time = |s: &std::time::Instant| s.elapsed().as_secs() < 20;
+    while progress && rounds < 4 && m.tests < 600 && in_time(&started) {
         progress = false;
         rounds += 1;
 
@@ -153,6 +157,9 @@ pub fn minimise(property: &str, start: Failing) -> (Failing, u64) {
             i -= 1;
             if i >= best.scenario.history.len() {
                 continue;
+            }
+            if !in_time(&started) {
+                break;
             }
             let mut c = best.scenario.clone();
             c.history.remove(i);
@@ -168,6 +175,9 @@ pub fn minimise(property: &str, start: Failing) -> (Failing, u64) {
             i -= 1;
             if i >= best.scenario.clauses.len() || protected(&best.scenario, i) {
                 continue;
+            }
+            if !in_time(&started) {
+                break;
             }
             let mut c = best.scenario.clone();
             c.clauses.remove(i);
@@ -193,6 +203,9 @@ pub fn minimise(property: &str, start: Failing) -> (Failing, u64) {
                     None => break,
                 };
                 for var in body_variants(&body) {
+                    if !in_time(&started) {
+                        break;
+                    }
                     let mut c = best.scenario.clone();
                     c.clauses[i].body = var;
                     if c.size() >= best.scenario.size() {
@@ -281,7 +294,7 @@ pub fn minimise(property: &str, start: Failing) -> (Failing, u64) {
                         SchedPolicy::Scripted { deviations } => deviations.keys().cloned().collect(),
                         _ => vec![],
                     };
-                    if start >= cur.len() {
+                    if start >= cur.len() || !in_time(&started) {
                         break;
                     }
                     let end = (start + chunk).min(cur.len());
